@@ -201,7 +201,11 @@ fn query_unit_case_sensitive<I: Interrupt>(
 			return Ok(expr_unit(unit_def, attrs, context, int)?.value);
 		}
 	}
-	let mut split_idx = ident.chars().next().unwrap().len_utf8();
+	let Some(first_char) = ident.chars().next() else {
+		// an empty identifier (it can only come from saved variables) names nothing
+		return Err(FendError::IdentifierNotFound(ident.to_string().into()));
+	};
+	let mut split_idx = first_char.len_utf8();
 	#[allow(clippy::needless_continue)]
 	while split_idx < ident.len() {
 		let (prefix, remaining_ident) = ident.split_at(split_idx);
